@@ -337,7 +337,7 @@ def run_cron(case, V, hooks, distinct):
                 insts.append(app2)
             else:
                 late_register = False
-            pattern = rng.choice(["regular", "jittered", "bursty", "gaps"])
+            pattern = rng.choice(["regular", "jittered", "bursty", "gaps", "daygaps"])
             t = datetime(2025, 3, 1, 0, 0, 0, tzinfo=UTC) + timedelta(seconds=rng.randrange(0, 86400 * 3))
             sched_minutes = cronmodel.Matcher(expr)
             period_s = sched_minutes.min_gap_seconds(t, horizon_minutes=3 * 24 * 60)
@@ -349,6 +349,9 @@ def run_cron(case, V, hooks, distinct):
                     t += timedelta(seconds=rng.uniform(5, 55))
                 elif pattern == "bursty":
                     t += timedelta(seconds=rng.choice([0.2, 0.5, 1, 1, 45, 70]))
+                elif pattern == "daygaps":
+                    # previous firing whole days (+ a few seconds) old: downtime, daily / weekly schedules
+                    t += timedelta(days=rng.choice([0, 0, 1, 1, 2, 7]), seconds=rng.choice([0, 3, 15, 30, 49, 50, 61, 3600 + 20]))
                 else:
                     t += timedelta(seconds=rng.choice([20, 40, 61, 300, 3700, 90000]))
                 polls.append(t)
